@@ -86,6 +86,10 @@ func (dr *DialogueRunner) isWaitingForChoice() bool {
 // Else, if no other error is encountered, the next DialogueElement to display is returned.
 // If the Dialogue has ended, then both return values will be nil.
 func (dr *DialogueRunner) Next(choice int) (*DialogueElement, error) {
+	// Statements that yield no element (set, jump, if, ...) are followed by the next statement right away.
+	// That is a jump back to here and not a recursive call, so that a script which runs many such statements
+	// in a row (a loop made of jumps) does not pile up stack frames until the process dies of a stack overflow.
+next:
 	if dr.commandErrChan != nil {
 		select {
 		case err := <-dr.commandErrChan:
@@ -116,7 +120,7 @@ func (dr *DialogueRunner) Next(choice int) (*DialogueElement, error) {
 	nextStatement, ok := statementsToRun.nextStatement()
 	if !ok {
 		dr.statementsToRun.Pop()
-		return dr.Next(choice)
+		goto next
 	}
 
 	dr.lastStatement = nextStatement
@@ -166,17 +170,17 @@ func (dr *DialogueRunner) Next(choice int) (*DialogueElement, error) {
 		if err := dr.executeSetStatement(nextStatement.SetStatement); err != nil {
 			return nil, fmt.Errorf("failed to execute set statement: %w", err)
 		}
-		return dr.Next(choice)
+		goto next
 	case nextStatement.JumpStatement != nil:
 		if err := dr.executeJumpStatement(nextStatement.JumpStatement); err != nil {
 			return nil, fmt.Errorf("failed to execute jump statement: %w", err)
 		}
-		return dr.Next(choice)
+		goto next
 	case nextStatement.IfStatement != nil:
 		if err := dr.executeIfStatement(nextStatement.IfStatement); err != nil {
 			return nil, fmt.Errorf("failed to execute if statement: %w", err)
 		}
-		return dr.Next(choice)
+		goto next
 	case nextStatement.CommandStatement != nil:
 		if stop, err := dr.executeCommandStatement(nextStatement.CommandStatement); err != nil {
 			return nil, fmt.Errorf("failed to execute command statement: %w", err)
@@ -186,17 +190,17 @@ func (dr *DialogueRunner) Next(choice int) (*DialogueElement, error) {
 		} else if dr.commandErrChan != nil {
 			return nil, ErrWaitingForCommandCompletion
 		}
-		return dr.Next(choice)
+		goto next
 	case nextStatement.CallStatement != nil:
 		if err := dr.executeCallStatement(nextStatement.CallStatement); err != nil {
 			return nil, fmt.Errorf("failed to execute call statement: %w", err)
 		}
-		return dr.Next(choice)
+		goto next
 	case nextStatement.DeclareStatement != nil:
 		if err := dr.executeDeclareStatement(nextStatement.DeclareStatement); err != nil {
 			return nil, fmt.Errorf("failed to execute declare statement: %w", err)
 		}
-		return dr.Next(choice)
+		goto next
 	}
 
 	return nil, errors.New("encountered an unsupported type of statement")
